@@ -71,6 +71,15 @@ CHECKS += [
     },
 ]
 
+CHECKS += [
+    {
+        "property_id": "C02", "engine": "symx", "category": "model_checking",
+        "technique": "bounded symbolic execution of Circuit.add on circuits carrying fully symbolic blocks + z3 (one-step wiring identity relative to the library's own U_full of sub-circuit and parent; disjunction over ancilla relabellings)",
+        "text": "For all complex entries of the blocks of parent, earlier sub-circuits and the added circuit: every accepted add gives U_full_after = W(U_full_sub) x lift(U_full_before) for some placement of the new ancillas, where W connects the j-th non-herald input/output to user mode m+j and each herald to a private ancilla with its photon number on input and output; mode counts, input size and herald dictionaries are as stated; earlier ancillas are untouched; oversize additions are rejected and accepted ones compile; later user-mode addressing skips ancillas. All herald in/out tuples, both declaration orders, both group flags, lossy and nested sub-circuits within the size bounds. Nesting depth follows by induction over add (stated).",
+        "design_ref": "DESIGN.md section 4 C02", "note": SYMX_NOTE,
+    },
+]
+
 _TODO = "check not built yet in this round; see DESIGN.md section 4 for the plan"
 NOT_APPLICABLE = [
     {"property_id": f"C{i:02d}", "reason": _TODO} for i in range(2, 20) if f"C{i:02d}" not in {c["property_id"] for c in CHECKS}
